@@ -34,7 +34,9 @@
 #include <unistd.h>
 #include "rkcommon/containers/AlignedVector.h"
 #include "rkcommon/memory/malloc.h"
+#ifndef C14_FALLBACK
 #include "rkcommon/utility/Any.h"
+#endif
 #include <initializer_list>
 
 using rkcommon::containers::aligned_allocator;
@@ -302,6 +304,7 @@ struct Tr<std::vector<int> >   // the element type IS std::vector<int>; emplace 
   template <typename V> static void eb(V &v, long n, long x) { v.emplace_back((size_t)n, (int)x); }
   template <typename V> static void em(V &v, size_t pos, long n, long x) { v.emplace(v.begin() + pos, (size_t)n, (int)x); }
 };
+#ifndef C14_FALLBACK
 typedef std::vector<rkcommon::utility::Any> AnyVec;
 template <>
 struct Tr<AnyVec>             // std::vector<Any>: Any is constructible from anything, also from a std::vector<Any>
@@ -329,6 +332,12 @@ struct Tr<AnyVec>             // std::vector<Any>: Any is constructible from any
   template <typename V> static void em(V &v, size_t pos, long, long x) { v.emplace(v.begin() + pos, enc(x)); }
 };
 
+#endif
+
+// C14_FALLBACK: a reduced build (no case A: rarely used allocator members; no case T: typed overload; no std::vector<Any>)
+// that props/C14/check.py falls back to when the full harness does not compile against the tree, so that the core cases
+// (M G I P S H V W) still run and are judged by the property oracle.
+#ifndef C14_FALLBACK
 // ------------------------------------------------------------------ T: the typed overload alignedMalloc<T>(n, align)
 template <typename T>
 static std::string runT(uint64_t n, uint64_t align, const std::string &ans)
@@ -416,6 +425,11 @@ static std::string runA()
 #endif
   return o.str();
 }
+
+#else
+static std::string runA() { return "unsupported-in-fallback-build"; }
+static std::string dispatchT(const std::string &, uint64_t, uint64_t, const std::string &) { return "unsupported-in-fallback-build"; }
+#endif
 
 // ------------------------------------------------------------------ G: allocate()
 template <size_t S, int A>
@@ -653,7 +667,11 @@ static std::string dispatchW(const std::string &tag, long fail, const std::vecto
   if (tag == "n") { if (sizeof(Node) != 32) pre = "!SIZEOF "; return pre + runVT<Node>(fail, ops); }
   if (tag == "S") { if (sizeof(std::string) != 32) pre = "!SIZEOF "; return pre + runVT<std::string>(fail, ops); }
   if (tag == "I") { if (sizeof(std::vector<int>) != 24) pre = "!SIZEOF "; return pre + runVT<std::vector<int> >(fail, ops); }
+#ifndef C14_FALLBACK
   if (tag == "y") { if (sizeof(AnyVec) != 24) pre = "!SIZEOF "; return pre + runVT<AnyVec>(fail, ops); }
+#else
+  if (tag == "y") return "unsupported-in-fallback-build";
+#endif
   return "bad-type";
 }
 
